@@ -31,7 +31,7 @@ R3_body = Rule("R3", "let mut subtotals: Vec<W> = weights.into_iter().map(|x| x.
                "let mut subtotals: Vec<W> = weights;",
                "iterator materialisation `into_iter().map(borrow().clone()).collect()` (cross-checked by Kani unit tree_new_materialise)")
 R5_map_err = Rule("R5", ".map_err(|()| $e)", ".map_err(|_e: ()| -> (r: Error) ensures r == $e { $e })",
-                  "closure parameter pattern `()` named; closure given an `ensures` restating its literal body")
+                  "closure parameter pattern `()` named; closure given an `ensures` restating its literal body", count="*")
 R4_inspect = Rule("R4", "{ $opt.inspect(|$p:tok| { $body }) }",
                   "{ match $opt { Some(v_) => { let $p = &v_; { $body } ; Some(v_) } None => None } }",
                   "std's Option::inspect replaced by its definition (closure capturing &mut self is outside Verus' subset)")
@@ -47,7 +47,7 @@ UNITS = {
         "quick_types": ["u64", "i32"],
         "structs": {"WeightedTreeIndex": {"file": TREE, "fields": ["subtotals"]}},
         "functions": {
-            "new": {"file": TREE, "path": TREE_IMPL, "name": "new", "rules": [R3_sig, R3_body, R5_map_err]},
+            "new": {"file": TREE, "path": TREE_IMPL, "name": "new", "rules": [R3_sig, R3_body]},
             "is_empty": {"file": TREE, "path": TREE_IMPL, "name": "is_empty"},
             "len": {"file": TREE, "path": TREE_IMPL, "name": "len"},
             "is_valid": {"file": TREE, "path": TREE_IMPL, "name": "is_valid"},
@@ -63,7 +63,8 @@ UNITS = {
         "property_of": {
             "C09": ["new", "is_empty", "len", "is_valid", "get", "pop", "push", "update", "subtotal",
                     "lemma_canonical", "lemma_canonical_at", "lemma_history_equals_fresh", "lemma_subtotal_is_subtree_sum"],
-            "C10": ["try_sample", "sample", "subtotal", "get", "is_valid", "lemma_descend_bijection", "lemma_descend_rank", "lemma_rank_descend"],
+            # C10 quantifies over the states reachable by any history, so it also depends on every operation preserving wf
+            "C10": ["*"],
             "C04": ["new", "push", "update", "len", "get"],
         },
     },
@@ -116,6 +117,9 @@ R9_enum = Rule("R9", "for ($i:tok, &$x:tok) in $s:tok.iter().enumerate() { $body
 R10_zip = Rule("R10", "self.no_alias_odds.iter().zip(&alias_contributions).map(|(&$a:tok, &$b:tok)| { $body }).collect()",
                "zip_map(&self.no_alias_odds, &alias_contributions, |$a: W, $b: W| -> (r_: W) requires 0 <= $a as int + $b as int <= W::MAX as int, n_converted > 0 ensures r_ as int == ($a as int + $b as int) / (n_converted as int) { $body })",
                "`a.iter().zip(&b).map(|(&x,&y)| E).collect()` -> prelude `zip_map(a, b, |x,y| E)` (assumed: element-wise application); the closure body E stays under verification against `(x + y) / n`")
+
+for _f in UNITS["tree"]["functions"].values():
+    _f.setdefault("rules", []).append(R5_map_err)
 
 UNITS["alias"] = {
     "name": "alias",
